@@ -3,3 +3,17 @@ package sym
 func init() {
 	verifIntrinsics["verifClockSettle"] = func(fr *frame, args []value) value { return nil }
 }
+
+func init() {
+	// verifInternalBytes(name, n) []byte: n arbitrary bytes that exist only under the engine
+	// (called from stubs of environment functions that natively run for real, e.g. a model
+	// of io.ReadFull(rand.Reader)); they are not part of the native replay vector.
+	verifIntrinsics["verifInternalBytes"] = func(fr *frame, args []value) value {
+		n := int(asInt64(args[1]))
+		out := make([]value, n)
+		for k := range out {
+			out[k] = fr.i.freshX(argString(args[0]), BV(8), typUint8, true)
+		}
+		return out
+	}
+}
